@@ -27,6 +27,13 @@ type KnownFinding struct {
 type propConfig struct {
 	Gen     bool     // needs the generated corpus
 	Dynamic []string // names of bounded/dynamic side checks
+	Bounded []boundedCheck
+}
+
+// boundedCheck: a bounded stand-in (labelled as such, never counted as proved)
+// run on the real code on every check of the property.
+type boundedCheck struct {
+	Name, PkgRel, File, Run, Bound string
 }
 
 var propConfigs = map[string]propConfig{
@@ -38,6 +45,8 @@ var propConfigs = map[string]propConfig{
 	"C11": {Gen: true},
 	"C18": {Gen: true},
 	"C16": {},
+	"C07": {Bounded: []boundedCheck{{Name: "rle-roundtrip", PkgRel: "internal/rle", File: "replay/rle_bounded_test.go.txt", Run: "TestBoundedC07",
+		Bound: "value round trip through an independent specification decoder and the library decoder on foreign legal encodings: every level sequence of length <= 12/6/4/3 for width 1/2/3/4, plus run-structured sequences around the 8-value, 63-group (504/505/512 values) and multi-byte-header (8191..8193 repeats) boundaries; 3 encodings per sequence"}}},
 }
 
 var pathSuffix = regexp.MustCompile(`@path\d+$`)
@@ -261,7 +270,28 @@ func runCheck(o checkOpts) *CheckResult {
 	}
 	nObl, nOK := 0, 0
 	var dyn *dynResult
+	// vacuity: a function all of whose return paths are unreachable under its own assumptions
+	pathCover := map[string][2]int{}
 	for _, ob := range all {
+		if ob.Kind == "pathcover" {
+			c := pathCover[ob.Func]
+			c[0]++
+			if ob.Res.Status == "unsat" {
+				c[1]++
+			}
+			pathCover[ob.Func] = c
+		}
+	}
+	for fnk, c := range pathCover {
+		if c[0] > 0 && c[0] == c[1] {
+			p := writeReplay(fnk+"_vacuous", map[string]interface{}{"obligation": fnk + " cover:paths", "reason": "every return path of the function is unreachable under the assumptions (contradictory contracts): the proof would be vacuous"})
+			report(Violation{Obligation: fnk + " cover:paths", Replay: p, NoInput: true, Detail: "vacuous proof: no return path is reachable under the contracts' assumptions"})
+		}
+	}
+	for _, ob := range all {
+		if ob.Kind == "pathcover" {
+			continue
+		}
 		if ob.Kind == "cover" {
 			if !ob.ok() {
 				p := writeReplay(ob.Func+"_"+ob.Name, map[string]interface{}{"obligation": oblBase(ob), "reason": "vacuous contract: preconditions are unsatisfiable", "solver": ob.Res.Solver})
@@ -299,6 +329,36 @@ func runCheck(o checkOpts) *CheckResult {
 		p := writeReplay(ob.Func+"_"+ob.Name, rp.Body)
 		report(Violation{Obligation: oblBase(ob), Replay: p, NoInput: !rp.Confirmed, Detail: rp.Summary})
 	}
+	// bounded stand-ins
+	var boundedEv []string
+	for _, bc := range cfg.Bounded {
+		src, err := os.ReadFile(filepath.Join(o.verif, bc.File))
+		if err != nil {
+			boundedEv = append(boundedEv, bc.Name+": driver missing: "+err.Error())
+			continue
+		}
+		out, err := runOverlayTestV(o.repo, bc.PkgRel, string(src), bc.Run)
+		cases := ""
+		for _, l := range strings.Split(out, "\n") {
+			if i := strings.Index(l, "BOUNDED-"); i >= 0 {
+				cases = strings.TrimSpace(l[i:])
+			}
+		}
+		if err != nil {
+			var fails []string
+			for _, l := range strings.Split(out, "\n") {
+				if i := strings.Index(l, "REPLAY-FAIL"); i >= 0 && len(fails) < 5 {
+					fails = append(fails, strings.TrimSpace(l[i:]))
+				}
+			}
+			p := writeReplay("bounded_"+bc.Name, map[string]interface{}{"obligation": "bounded:" + bc.Name, "bound": bc.Bound, "failing_inputs": fails, "output": truncate(out, 4000), "replay_test": string(src), "replay_pkg": bc.PkgRel, "repo": o.repo})
+			report(Violation{Obligation: "bounded:" + bc.Name, Replay: p, NoInput: len(fails) == 0, Detail: "bounded check failed on the real code: " + strings.Join(fails, "\n  ")})
+			boundedEv = append(boundedEv, fmt.Sprintf("%s: FAILED (%s)", bc.Name, bc.Bound))
+		} else {
+			boundedEv = append(boundedEv, fmt.Sprintf("%s: passed, %s; bound: %s", bc.Name, cases, bc.Bound))
+		}
+	}
+	e.boundedEv = boundedEv
 	if nObl == 0 {
 		p := writeReplay("vacuity", map[string]interface{}{"obligation": "obligation-count", "reason": "no obligations were generated for this property"})
 		report(Violation{Obligation: "obligation-count", Replay: p, NoInput: true, Detail: "zero obligations"})
@@ -332,6 +392,9 @@ func writeEvidence(path string, o checkOpts, results []*FuncResult, res *CheckRe
 	maxBytes := 0
 	slowest := 0.0
 	for _, ob := range all {
+		if ob.Kind == "pathcover" {
+			continue
+		}
 		if ob.Kind == "cover" {
 			continue
 		}
@@ -363,7 +426,7 @@ func writeEvidence(path string, o checkOpts, results []*FuncResult, res *CheckRe
 	for _, r := range results {
 		n, ok := 0, 0
 		for _, ob := range r.Obls {
-			if ob.Kind == "cover" || !(len(ob.Tags) == 0 || hasTag(ob.Tags, o.prop)) {
+			if ob.Kind == "cover" || ob.Kind == "pathcover" || !(len(ob.Tags) == 0 || hasTag(ob.Tags, o.prop)) {
 				continue
 			}
 			n++
@@ -420,7 +483,7 @@ func writeEvidence(path string, o checkOpts, results []*FuncResult, res *CheckRe
 		"largest_vc_bytes":         maxBytes,
 		"obligation_kinds":         kinds,
 		"known_findings_reported":  res.Known,
-		"bounded":                  []string{},
+		"bounded":                  boundedOrEmpty(e.boundedEv),
 		"identical_copies_skipped": e.skipped,
 		"explanation":              "contract-based deductive verification: verification conditions generated from go/ssa of the working tree, one SMT query per obligation",
 	}
@@ -447,4 +510,11 @@ func pkgPathOf(fn *ssa.Function) string {
 		return ""
 	}
 	return fn.Pkg.Pkg.Path()
+}
+
+func boundedOrEmpty(b []string) []string {
+	if b == nil {
+		return []string{}
+	}
+	return b
 }
